@@ -20,6 +20,9 @@ ASSUMPTIONS = ["the debugger leaves final-stack truthiness / clean-stack judgeme
 DECLINED = ["equality of the finished session with consensus validity", "SIGPUSHONLY, witness-malleation and unexpected-witness rules (not modelled by the debugger)"]
 
 ROLE = {"vin": {"txin_index", "select_index", "i"}, "amounts": {"txin_index"}, "vout": {"txin_vout_index"}}
+# locals the patterns below are written over; every other single-assignment local is a hoisted sub-expression and is expanded
+KEEP = ("wstack", "scriptSig", "scriptPubKey", "pushval", "wsh", "validation", "witprogver", "sigver", "control", "program", "stack", "wscript",
+        "opcode", "it", "source", "i", "input", "select_index", "txin_hash", "hash", "p2sh_script", "execdata", "hashsrc", "amounts", "witness", "exec_script")
 
 
 def index_vars(func, idx, depth=0):
@@ -39,6 +42,12 @@ def index_vars(func, idx, depth=0):
                 continue
         out.add(x["n"])
     return out
+
+
+def _X(func, node):
+    """spelling of an expression with hoisted locals expanded (see common.expand)"""
+    from . import common as _c
+    return _c.xstr(func, node, KEEP)
 
 
 def run(ctx, anchors=None):
@@ -96,17 +105,17 @@ def run(ctx, anchors=None):
 
     from . import common as _cm
     _cm.require_names(pit, ["select_index", "txin_hash", "txin_index", "txin_vout_index"], "R03.2")
-    defs_in = [n for n in pit.nodes() if n["k"] == "assign" and astq.estr(n["lhs"]).endswith("txin_index") and not astq.estr(n["lhs"]).endswith("vout_index")]
-    defs_out = [n for n in pit.nodes() if n["k"] == "assign" and astq.estr(n["lhs"]).endswith("txin_vout_index")]
+    defs_in = [n for n in pit.nodes() if n["k"] == "assign" and _X(pit, n["lhs"]).endswith("txin_index") and not _X(pit, n["lhs"]).endswith("vout_index")]
+    defs_out = [n for n in pit.nodes() if n["k"] == "assign" and _X(pit, n["lhs"]).endswith("txin_vout_index")]
     ctx.floor("R03.2", len(defs_in), 1, "definitions of the input index")
     for d in defs_out:
         ctx.site()
-        r = astq.estr(d["rhs"])
+        r = _cm.xstr(pit, d["rhs"], KEEP)
         # the matching input-index definition in the same block
         sib = [x for x in defs_in if cfg.position(x) and cfg.position(d) and cfg.position(x)[0] == cfg.position(d)[0]]
         same = False
         if sib:
-            iv = astq.estr(sib[0]["rhs"])
+            iv = _cm.xstr(pit, sib[0]["rhs"], KEEP)
             same = r.endswith("prevout.n") and (("vin[%s]" % iv) in r or (iv == "i" and r.startswith("input.")))
         ctx.inst(same, "R03.1", "vout-index-from-same-input:" + r[:40], pit.loc(d), "txin_vout_index = prevout.n of the input that defines txin_index",
                  "txin_vout_index is assigned `%s`, which is not prevout.n of the input chosen as txin_index" % r)
@@ -117,17 +126,17 @@ def run(ctx, anchors=None):
         eq = False
         for (c, t) in cfg.guards_of(d):
             cn = pit.node_by_id(c)
-            txt = astq.estr(cn) if cn else ""
+            txt = _X(pit, cn) if cn else ""
             if "prevout.hash" in txt and "txin_hash" in txt and (("==" in txt and t) or ("!=" in txt and not t)):
                 eq = True
-        ctx.inst(eq, "R03.2", "txid-match-before:" + astq.estr(d)[:40], pit.loc(d), "the input index is only set for an input whose prevout.hash equals the funding txid",
-                 "`%s` is not dominated by prevout.hash == funding txid" % astq.estr(d))
-    sel_if = [n for n in pit.nodes() if n["k"] == "if" and astq.estr(n["cond"]).replace(" ", "") in ("(select_index>-1)", "(select_index>=0)")]
+        ctx.inst(eq, "R03.2", "txid-match-before:" + _X(pit, d)[:40], pit.loc(d), "the input index is only set for an input whose prevout.hash equals the funding txid",
+                 "`%s` is not dominated by prevout.hash == funding txid" % _X(pit, d))
+    sel_if = [n for n in pit.nodes() if n["k"] == "if" and _X(pit, n["cond"]).replace(" ", "") in ("(select_index>-1)", "(select_index>=0)")]
     if not sel_if:
         ctx.fail("R03.2", "select-branch", pit.loc(), "the --select branch (select_index > -1) was not found")
     else:
         s_if = sel_if[0]
-        s_defs = [d for d in defs_in if S.contains(s_if["then"], d) and astq.estr(d["rhs"]) == "select_index"]
+        s_defs = [d for d in defs_in if S.contains(s_if["then"], d) and _X(pit, d["rhs"]) == "select_index"]
         oks = False
         if s_defs and s_if.get("else") is not None:
             # every path through the then-branch either rejects or passes the definition
@@ -137,10 +146,10 @@ def run(ctx, anchors=None):
         ctx.inst(oks, "R03.2", "select-honoured", pit.loc(s_if), "with --select the input index is assigned from the selection on every non-rejecting path of that branch, and auto-detection is the else-branch",
                  "with --select the input index is not taken from the selection (the branch %s): another input spending the same transaction can be debugged instead"
                  % ("never assigns txin_index = select_index" if not s_defs else "falls through into auto-detection"))
-        bounds = [n for n in walk(s_if["then"]) if n["k"] == "if" and "vin.size()" in astq.estr(n["cond"]) and "select_index" in astq.estr(n["cond"]) and S.terminates(n["then"])]
-        mism = [n for n in walk(s_if["then"]) if n["k"] == "if" and "prevout.hash" in astq.estr(n["cond"]) and "!=" in astq.estr(n["cond"]) and S.terminates(n["then"])]
+        bounds = [n for n in walk(s_if["then"]) if n["k"] == "if" and "vin.size()" in _X(pit, n["cond"]) and "select_index" in _X(pit, n["cond"]) and S.terminates(n["then"])]
+        mism = [n for n in walk(s_if["then"]) if n["k"] == "if" and "prevout.hash" in _X(pit, n["cond"]) and "!=" in _X(pit, n["cond"]) and S.terminates(n["then"])]
         ctx.inst(bool(bounds) and bool(mism), "R03.2", "select-refusals", pit.loc(s_if), "an out-of-range or non-matching selection returns false")
-    nf = [n for n in pit.nodes() if n["k"] == "if" and "txin_index" in astq.estr(n["cond"]) and "-1" in astq.estr(n["cond"]) and S.terminates(n["then"])]
+    nf = [n for n in pit.nodes() if n["k"] == "if" and "txin_index" in _X(pit, n["cond"]) and "-1" in _X(pit, n["cond"]) and S.terminates(n["then"])]
     ctx.inst(bool(nf), "R03.2", "no-match-refused", pit.loc(nf[0]) if nf else pit.loc(), "a funding transaction that no input spends is refused")
 
     # ---- R03.3
@@ -151,12 +160,12 @@ def run(ctx, anchors=None):
 
     def rejecting_if(pred):
         for n in cf.nodes():
-            if n["k"] == "if" and pred(astq.estr(n["cond"])) and any(x["k"] == "return" and astq.const_value(x.get("e")) == 0 for x in walk(n["then"])) and S.terminates(n["then"]):
+            if n["k"] == "if" and pred(_X(cf, n["cond"])) and any(x["k"] == "return" and astq.const_value(x.get("e")) == 0 for x in walk(n["then"])) and S.terminates(n["then"]):
                 return n
         return None
     p2sh_cmp = rejecting_if(lambda t: "uint160(hashsrc" in t.replace(" ", "") and "uint160(pushval)" in t and "!=" in t)
     v0_cmp = rejecting_if(lambda t: t.replace(" ", "") in ("(wscript.data!=pushval)", "(pushval!=wscript.data)"))
-    src_asg = [n for n in cf.nodes() if n["k"] == "opcall" and n["op"] == "=" and astq.estr(n["args"][0]) == "source"]
+    src_asg = [n for n in cf.nodes() if n["k"] == "opcall" and n["op"] == "=" and _X(cf, n["args"][0]) == "source"]
     ctx.site(3)
     ctx.inst(p2sh_cmp is not None and bool(src_asg) and all(ccfg.dominates(p2sh_cmp["cond"], a) for a in src_asg), "R03.3", "p2sh-wrapped-hash-checked", cf.loc(p2sh_cmp) if p2sh_cmp else cf.loc(),
              "HASH160(pushed program) is compared with the scriptPubKey's hash (mismatch returns false) before the pushed program is used",
@@ -164,27 +173,27 @@ def run(ctx, anchors=None):
     # hash function chosen by program size
     hsel = None
     for n in cf.nodes():
-        if n["k"] == "if" and astq.estr(n["cond"]) == "wsh" and n.get("else") is not None:
+        if n["k"] == "if" and _X(cf, n["cond"]) == "wsh" and n.get("else") is not None:
             t = [x["n"] for x in walk(n["then"]) if x["k"] == "mcall" and x.get("n", "").startswith("do_")]
             e = [x["n"] for x in walk(n["else"]) if x["k"] == "mcall" and x.get("n", "").startswith("do_")]
             if t and e:
                 hsel = (t[0], e[0], n)
-    val_asg = [n for n in cf.nodes() if n["k"] == "opcall" and n["op"] == "=" and astq.estr(n["args"][0]) == "validation" and "witprogver == 0" in " ".join(astq.estr(c) for (c, t) in S.ast_guards(cf, n) if t)]
+    val_asg = [n for n in cf.nodes() if n["k"] == "opcall" and n["op"] == "=" and _X(cf, n["args"][0]) == "validation" and "witprogver == 0" in " ".join(_X(cf, c) for (c, t) in S.ast_guards(cf, n) if t)]
     ctx.inst(v0_cmp is not None and hsel is not None and hsel[:2] == ("do_sha256", "do_hash160") and ccfg.dominates(hsel[2]["cond"], v0_cmp["cond"]) and bool(val_asg) and all(ccfg.dominates(v0_cmp["cond"], a) for a in val_asg),
              "R03.3", "v0-program-hash-checked", cf.loc(v0_cmp) if v0_cmp else cf.loc(),
              "SHA256 (32-byte program) / HASH160 (20-byte program) of the last witness item is compared with the program (mismatch returns false) before the script is chosen",
              "the v0 witness script / key is used without a rejecting comparison of its hash (SHA256 for P2WSH, HASH160 for P2WPKH) with the witness program")
-    wsh_sizes = [n for n in cf.nodes() if n["k"] == "if" and "pushval.size()" in astq.estr(n["cond"]) and "wsh" in astq.estr(n["cond"]) and S.terminates(n["then"])]
+    wsh_sizes = [n for n in cf.nodes() if n["k"] == "if" and "pushval.size()" in _cm.xstr(cf, n["cond"], KEEP) and "wsh" in _cm.xstr(cf, n["cond"], KEEP) and S.terminates(n["then"])]
     ok_sz = False
     if wsh_sizes:
-        c = [x for x in walk(wsh_sizes[0]["cond"]) if x["k"] == "cond"]
+        c = [x for x in walk(_cm.expand(cf, wsh_sizes[0]["cond"], KEEP)) if x["k"] == "cond"]
         ok_sz = bool(c) and astq.const_value(c[0]["then"]) == 32 and astq.const_value(c[0]["else"]) == 20
     ctx.inst(ok_sz, "R03.3", "v0-program-size", cf.loc(wsh_sizes[0]) if wsh_sizes else cf.loc(), "the program must be 32 bytes for P2WSH and 20 bytes for P2WPKH")
     news = [n for n in cf.nodes() if n["k"] == "new" and "TaprootCommitmentEnv" in n.get("ty", "")]
-    tapsv = [n for n in cf.nodes() if n["k"] == "assign" and astq.estr(n["lhs"]) == "sigver" and astq.estr(n["rhs"]).endswith("TAPSCRIPT")]
+    tapsv = [n for n in cf.nodes() if n["k"] == "assign" and _X(cf, n["lhs"]) == "sigver" and _X(cf, n["rhs"]).endswith("TAPSCRIPT")]
     ok_tap = len(news) == 1 and bool(tapsv) and all(ccfg.dominates(news[0], a) for a in tapsv)
     if ok_tap:
-        nargs = [astq.estr(a) for a in news[0]["init"]["args"]] if news[0].get("init") else []
+        nargs = [_X(cf, a) for a in news[0]["init"]["args"]] if news[0].get("init") else []
         ok_tap = nargs[:3] == ["control", "program", "scriptPubKey"]
     ctx.inst(ok_tap, "R03.3", "v1-script-path-commitment", cf.loc(news[0]) if news else cf.loc(),
              "a tapscript session is only set up after constructing the commitment check over (control, program, revealed script)",
@@ -199,7 +208,7 @@ def run(ctx, anchors=None):
     # ---- R03.7 the script version is decided by configure_tx_txin on every path to success (parse_transaction pre-sets
     # WITNESS_V0 whenever ANY input has a witness, so a branch that does not assign it inherits the wrong version)
     ctx.rule("R03.7", "every successful path of configure_tx_txin assigns the script version (BASE for the legacy branch)")
-    sv_asg = [n for n in cf.nodes() if n["k"] == "assign" and astq.estr(n["lhs"]) == "sigver"]
+    sv_asg = [n for n in cf.nodes() if n["k"] == "assign" and _X(cf, n["lhs"]) == "sigver"]
     succ_rets = [n for n in cf.nodes() if n["k"] == "return" and astq.const_value(n.get("e")) == 1]
     blocks = ccfg.blocks_of_nodes(sv_asg)
     reach_wo = ccfg.reachable_from(ccfg.entry, removed_blocks=blocks)
@@ -209,8 +218,8 @@ def run(ctx, anchors=None):
              "every path to `return true` passes an assignment of sigver (%d assignments)" % len(sv_asg),
              "configure_tx_txin can return true without assigning sigver: the input inherits the version pre-set from the whole transaction "
              "(WITNESS_V0 if any other input has a witness), so a legacy input of a mixed transaction is checked under BIP143 rules")
-    legacy = [n for n in sv_asg if astq.estr(n["rhs"]).endswith("BASE")]
-    lg = [astq.estr(c) for n in legacy for (c, t) in S.ast_guards(cf, n) if not t]
+    legacy = [n for n in sv_asg if _X(cf, n["rhs"]).endswith("BASE")]
+    lg = [_X(cf, c) for n in legacy for (c, t) in S.ast_guards(cf, n) if not t]
     ctx.inst(bool(legacy) and any("wstack.size() > 0" in x for x in lg), "R03.7", "legacy-branch-is-BASE", cf.loc(legacy[0]) if legacy else cf.loc(), "an input without witness is executed as SigVersion::BASE")
     # ---- R03.4 (shared)
     from .. import report
@@ -244,8 +253,8 @@ def run(ctx, anchors=None):
 
     def annex_cond(func):
         for n in func.nodes():
-            if n["k"] == "if" and "ANNEX_TAG" in astq.estr(n["cond"]):
-                return sorted(astq.estr(c) for c in S.conjuncts(n["cond"]))
+            if n["k"] == "if" and "ANNEX_TAG" in _X(func, n["cond"]):
+                return sorted(_X(func, c) for c in S.conjuncts(n["cond"]))
         return None
     a1, a2 = annex_cond(cf), annex_cond(vwp)
     ctx.site()
@@ -253,8 +262,8 @@ def run(ctx, anchors=None):
 
     def weight(func):
         for n in func.nodes():
-            if n["k"] == "assign" and astq.estr(n["lhs"]).endswith("m_validation_weight_left"):
-                t = astq.estr(n["rhs"])
+            if n["k"] == "assign" and _X(func, n["lhs"]).endswith("m_validation_weight_left"):
+                t = _X(func, n["rhs"])
                 return t.replace("witness.stack", "W").replace("wstack", "W")
         return None
     w1, w2 = weight(cf), weight(vwp)
@@ -262,14 +271,14 @@ def run(ctx, anchors=None):
     ctx.inst(w1 is not None and w1 == w2, "R03.6", "validation-weight", cf.loc(), "validation weight = serialized witness size + VALIDATION_WEIGHT_OFFSET",
              "validation weight at set-up `%s` differs from VerifyWitnessProgram's `%s`" % (w1, w2))
     wst = [n for n in cf.nodes() if n["k"] == "decl" and any(d["n"] == "wstack" for d in n["decls"])]
-    okw = bool(wst) and "scriptWitness.stack" in astq.estr(wst[0]["decls"][0].get("init")) and "txin_index" in astq.estr(wst[0]["decls"][0].get("init"))
+    okw = bool(wst) and "scriptWitness.stack" in _cm.xstr(cf, wst[0]["decls"][0].get("init"), KEEP) and "txin_index" in _cm.xstr(cf, wst[0]["decls"][0].get("init"), KEEP)
     ctx.inst(okw, "R03.6", "witness-of-selected-input", cf.loc(wst[0]) if wst else cf.loc(), "the witness stack is that of the selected input (full stack, annex included, is what is weighed)")
-    tsz = [n for n in cf.nodes() if n["k"] == "if" and "WITNESS_V1_TAPROOT_SIZE" in astq.estr(n["cond"]) and "!=" in astq.estr(n["cond"]) and S.terminates(n["then"])]
+    tsz = [n for n in cf.nodes() if n["k"] == "if" and "WITNESS_V1_TAPROOT_SIZE" in _X(cf, n["cond"]) and "!=" in _X(cf, n["cond"]) and S.terminates(n["then"])]
     ctx.inst(bool(tsz), "R03.6", "v1-program-size", cf.loc(tsz[0]) if tsz else cf.loc(), "a v1 program must be WITNESS_V1_TAPROOT_SIZE bytes")
-    lv = [n for n in cf.nodes() if n["k"] == "if" and "TAPROOT_LEAF_MASK" in astq.estr(n["cond"]) and "TAPROOT_LEAF_TAPSCRIPT" in astq.estr(n["cond"])]
+    lv = [n for n in cf.nodes() if n["k"] == "if" and "TAPROOT_LEAF_MASK" in _X(cf, n["cond"]) and "TAPROOT_LEAF_TAPSCRIPT" in _X(cf, n["cond"])]
     ctx.inst(bool(lv) and lv[0].get("else") is not None and S.terminates(lv[0]["else"]), "R03.6", "leaf-version-dispatch", cf.loc(lv[0]) if lv else cf.loc(), "only leaf version 0xc0 is executed as tapscript; others are refused")
-    amt = [n for n in cf.nodes() if n["k"] == "assign" and "amounts[txin_index]" in astq.estr(n["lhs"])]
-    ctx.inst(bool(amt) and "vout[txin_vout_index]" in astq.estr(amt[0]["rhs"]).replace(" ", "") and astq.estr(amt[0]["rhs"]).endswith(".nValue"), "R03.6", "amount-from-spent-output", cf.loc(amt[0]) if amt else cf.loc(),
+    amt = [n for n in cf.nodes() if n["k"] == "assign" and "amounts[txin_index]" in _X(cf, n["lhs"])]
+    ctx.inst(bool(amt) and "vout[txin_vout_index]" in _cm.xstr(cf, amt[0]["rhs"], KEEP).replace(" ", "") and _cm.xstr(cf, amt[0]["rhs"], KEEP).endswith(".nValue"), "R03.6", "amount-from-spent-output", cf.loc(amt[0]) if amt else cf.loc(),
              "the amount of the debugged input is taken from the referenced output")
 
 
